@@ -124,6 +124,9 @@ func Run(p Program, scratch string) (out *Outcome) {
 	if p.Many {
 		out.class("many_tables_mode")
 	}
+	if p.Long {
+		out.class("long_lived_txn_mode")
+	}
 	if !in.openDB() {
 		return
 	}
@@ -261,6 +264,21 @@ func (in *interp) value(t *MTxn, vlen int) string {
 		pad = "x"
 	}
 	v := tok + strings.Repeat(pad, vlen)
+	if pad == "rand" {
+		// incompressible padding (tables and wal files as large on disk as in memory)
+		b := make([]byte, 0, vlen)
+		x := uint64(t.no)*0x9E3779B97F4A7C15 + uint64(t.nsets) + 1
+		for i := 0; i < vlen; i++ {
+			x ^= x << 13
+			x ^= x >> 7
+			x ^= x << 17
+			b = append(b, byte(x>>24))
+		}
+		if vlen > 0 {
+			b[0] = '~'
+		}
+		v = tok + string(b)
+	}
 	in.tokens[tok] = t.no
 	return v
 }
@@ -623,7 +641,7 @@ func (in *interp) exec(o Op) {
 		}
 	case "tbegin":
 		for _, lt := range in.open {
-			if lt.tmpl != 0 { // a previous template is still running: end it
+			if lt.tmpl == -1 || lt.tmpl == -2 { // a previous template is still running: end it
 				lt.tmpl = 0
 			}
 		}
@@ -632,6 +650,19 @@ func (in *interp) exec(o Op) {
 			in.begin(true, -2)
 			in.out.class("anomaly_template")
 		}
+	case "lbegin":
+		for _, lt := range in.open {
+			if lt.tmpl == -3 {
+				lt.tmpl = 0
+			}
+		}
+		if len(in.open) <= 4 {
+			in.begin(o.RW, -3)
+			in.out.class("template_with_long_lived_txn")
+		}
+	case "settle":
+		// steering only: give the watermark goroutines a moment to process what was just finished
+		time.Sleep(2 * time.Millisecond)
 	case "tmpl_view":
 		in.freshView([]int{o.K % len(in.p.Keys), o.N % len(in.p.Keys)})
 	case "get":
@@ -676,10 +707,17 @@ func (in *interp) exec(o Op) {
 		}
 	case "burst":
 		for i := 0; i < o.N; i++ {
+			in.beat.Store(time.Now().UnixNano())
 			in.doUpdate(Op{Op: "update", Ups: []UpOp{{Op: "set", K: (o.K + i) % len(in.p.Keys), VLen: 0}}})
+			if len(in.out.Discs) > 0 && o.N > 100 {
+				break
+			}
 		}
 		if len(in.open) > 0 {
 			in.out.class("burst_of_commits_with_open_txn")
+			if o.N >= 900 {
+				in.out.class("burst_of_900_or_more_commits_with_open_txn")
+			}
 		}
 	case "view":
 		ks := make([]int, 0, len(o.Ups))
@@ -968,6 +1006,9 @@ func (in *interp) doReopen(o Op) {
 	}
 	if hasLevel(in.dir, 1) {
 		in.out.class("reopen_with_level_ge1_tables")
+	}
+	if hasLevel(in.dir, 10) {
+		in.out.class("reopen_with_level_ge10_tables")
 	}
 	if o.Cfg != nil {
 		if *o.Cfg != in.cfg {
